@@ -47,6 +47,10 @@ CHECKS = {
    "Conversion is proved per node class (with merging off, and with merging on for every class but AND): a comparison becomes a fresh range with the same bound and inclusiveness, a fresh '*' word on the open side, the node's position and layout, add_head around TO only, no comparison left; every other node is copied; input and the shared wildcard word untouched. Merging is proved with a cut-point invariant on the loop of visit_and_operation over an UNBOUNDED number of operands, semantically for one arbitrary field value with uninterpreted bound atoms (hence for every value and every ordering): init, one iteration from an arbitrary state (empty / one-element / longer queue, either side) on a generic converted operand (one-sided same side, opposite side, anything else), exit - the conjunction of the kept operands is equivalent to the conjunction of the consumed ones. _get_node_bound_side is proved against its specification; locality (only direct operands of one AND) follows from the per-class obligations. A bounded sweep on a 5-point ordered domain cross-checks the invariant.",
    "A1-A10; the composition (L-IND, induction over the operands) is on paper; values are abstract (the code never compares bounds, as documented).",
    "contract-based deductive verification: per-class conversion contract + loop invariant (cut-point) for the merging loop on the real code, z3 with uninterpreted value atoms; bounded cross-check"),
+ "C16": ("proof", "3.C16",
+   "Per node class x default operation the real _propagate is run on a symbolic index path with uninterpreted sets of matching / other paths (i.e. for all truth assignments), the recursive calls stubbed by the same contract: the returned status equals the spec value (own report, else any / all of the children by operation kind and default, else the status of the nearest named ancestor-or-self; negations flipped afterwards), the two returned sets are exactly the children's sets plus this node's path on the side of its status, disjoint and complete, children are propagated with their index paths exactly when the construct propagates (not for ranges and fuzzy / proximity), the tree is untouched. _status_from_parent is proved with its recursive call on the strict prefix stubbed by its contract. __init__ / __call__ proved. A bounded sweep cross-checks the spec value against direct boolean evaluation under the statement's precondition.",
+   "A1-A10; 'val is the boolean value under the precondition' and L-IND are paper steps; any / all / set union over an operand run by the list lemmas (A5).",
+   "contract-based deductive verification: per-class propagation contract with z3 sets of integer sequences and uninterpreted membership, recursion stubbed by contract; bounded cross-check of the spec"),
 }
 PENDING = {
 }
